@@ -353,6 +353,8 @@ func vfEngineFailLabel(msg, stack string) string {
 		return "ProjectNone.hasRow-nil-thread"
 	case strings.Contains(stack, "(*SemiJoin).Select") && (strings.Contains(msg, "Sels.Get can't find") || strings.Contains(stack, "query.selEnd")):
 		return "semijoin-reverse-select-off-index"
+	case strings.Contains(stack, "(*Intersect).Lookup") && (strings.Contains(msg, "Sels.Get can't find") || strings.Contains(msg, "selOrg not full")):
+		return "intersect-with-singleton-lookup-without-selections"
 	case strings.Contains(msg, "selOrg not full") && strings.Contains(stack, "(*Union).getLookup") && strings.Contains(stack, "(*Compatible).source2Has"):
 		return "union-disjoint-lookup-source2Has"
 	}
